@@ -50,6 +50,36 @@ def scope_of(pid: str) -> Tuple[str, ...]:
     return tuple(out)
 
 
+_HUBS = ("qlassfun.", "qcircuit.qcircuit.", "types.")
+
+
+def _anchor_words(pid: str) -> Set[str]:
+    import re
+
+    with open(os.path.join(HERE, "properties.jsonl")) as fh:
+        for line in fh:
+            line = line.strip()
+            if line and json.loads(line).get("id") == pid:
+                p = json.loads(line)
+                txt = json.dumps(p.get("anchors") or {})
+                return set(re.findall(r"[A-Za-z_][A-Za-z_0-9]*", txt))
+    return set()
+
+
+def _in_words(fi: FuncInfo, words: Set[str]) -> bool:
+    """the function, or the function it is nested in, is named in the anchors (dunder methods: with their class)"""
+    f = fi
+    while f is not None:
+        nm = f.name
+        if nm.startswith("__") and nm.endswith("__"):
+            if f.cls is not None and f.cls.name in words and nm in words:
+                return True
+        elif nm in words:
+            return True
+        f = f.parent
+    return False
+
+
 def _leaves(stmts: Sequence[ast.stmt]) -> bool:
     """every path through stmts ends in return / raise / break (so control never reaches the loop's next iteration)"""
     if not stmts:
@@ -767,6 +797,11 @@ def check(ctx, pid: Optional[str] = None, prefixes: Optional[Tuple[str, ...]] = 
         if len(fn(pos)) != 1 or fn(neg):
             raise AnchorError(f"lints.{rule}", "the rule no longer separates its own positive and negative example")
     funcs = [fi for fi in ctx.repo.functions.values() if fi.module is not None and any((fi.short + ".").startswith(p) for p in prefixes)]
+    # hub modules serve many unrelated properties (QlassF, QCircuit, the types package): there only the functions the
+    # property's anchors name are in scope (C10, purity of everything, keeps the whole module)
+    words = _anchor_words(pid)
+    if pid != "C10" and words:
+        funcs = [fi for fi in funcs if not any(fi.short.startswith(h) for h in _HUBS) or _in_words(fi, words) or any((fi.short + ".").startswith(x) for x in extra)]
     # functions that are not in the reference inventory (new helpers) and are called, by name, from code in scope:
     # a mechanism moved into a helper elsewhere in the package stays under the rules of the property it serves
     try:
@@ -776,11 +811,20 @@ def check(ctx, pid: Optional[str] = None, prefixes: Optional[Tuple[str, ...]] = 
         known = None
     if known is not None:
         new_fns = [fi for fi in ctx.repo.functions.values() if fi.module is not None and fi.qualname not in known and fi not in funcs]
+        # helpers the normaliser inlined into a function no longer show as calls there: its log says where they went
+        import re as _re
+
+        inlined_into = {}
+        for line in getattr(ctx.repo, "normalized", []):
+            m_ = _re.match(r"^(\S+): inlined new (?:expression )?helper (\w+)", line)
+            if m_:
+                inlined_into.setdefault(m_.group(1), set()).add(m_.group(2))
         changed = True
         while changed and new_fns:
             changed = False
             called = set()
             for fi in funcs:
+                called |= inlined_into.get(fi.qualname, set())
                 for n in ast.walk(fi.node):
                     if isinstance(n, ast.Call):
                         f = n.func
@@ -824,6 +868,8 @@ def _check_classes(ctx, funcs):
         for node, what in class_mutable(c.node):
             hits += 1
             owner = next((m for m in c.methods.values() if any(x is node for x in ast.walk(m.node))), None)
+            if owner is not None and owner not in funcs:
+                continue  # the method that changes the shared object serves another property
             ctx.fail(rule, owner, role, what, node, construct=None if owner is not None else c.qualname)
     if not hits:
         ctx.ok(rule, None, role, f"{len(seen)} classes of the anchored modules scanned, 0 instances; positive example fires, negative example silent", construct="classes")
